@@ -297,7 +297,15 @@ class ExplicitStateGraph:
             # Calculate the new policy, taking into account
             # the "infinite" cost of unavailable actions.
             new_pi = np.zeros_like(pi)
-            np.put_along_axis(new_pi, (q + np.log(am)).argmax(axis=1)[:, None], values=1, axis=1)
+            masked_q = q + np.log(am)
+            best = masked_q.argmax(axis=1)
+            if i > 0:
+                # Keep the current action unless another one is strictly better after rounding:
+                # switching between actions that tie after rounding can cycle forever.
+                current = pi.argmax(axis=1)
+                current_q = np.take_along_axis(masked_q, current[:, None], axis=1)[:, 0]
+                best = np.where(current_q >= masked_q.max(axis=1), current, best)
+            np.put_along_axis(new_pi, best[:, None], values=1, axis=1)
 
             # Check convergence
             converged = (new_pi == pi).all()
